@@ -125,6 +125,41 @@ def check_metamodule(res, c):
     res.count("synth_roundtrips")
     for path, a, b in snapshot.diff(S_syn, build.norm_module(snapshot.snap_module(s2.module, "synth"), "after"))[:3]:
         res.violation(f"C15:synth:{snapshot.field_key(path)}", f"stand-alone {path}: before {a}, after {b}", desc)
+    # the same file with the mapping table cut to 64 entries, as older SunVox wrote it
+    if c.index % 2 == 0:
+        chunks = [(x[0], x[1]) for x in iffparse.parse(raw)]
+        out_chunks, cur = [], None
+        for cid, pl in chunks:
+            if cid == b"CHNM":
+                (cur,) = struct.unpack("<I", pl)
+            elif cid == b"CHDT" and cur == 1:
+                pl = pl[:64 * 4]
+            out_chunks.append((cid, pl))
+        try:
+            s_old = workload.load(iffparse.build(out_chunks))
+        except Exception as e:
+            res.violation(f"C15:short-mapping-table-unloadable:{workload.exc_key(e)}", f"file with a 64-entry mapping table does not load: {e!r}", desc)
+            return
+        mm_old = s_old.module
+        res.count("short_mapping_tables")
+        got = [(x.module, x.controller) for x in mm_old.mappings.values]
+        want = [tuple(x) for x in S["payload"]["mappings"][:64]] + [(0, 0)] * 32
+        if got != want:
+            res.violation("C15:short-mapping-table", f"64-entry mapping table loads as {got[60:70]}..., expected the 64 entries followed by unset ones", desc)
+        else:
+            k = 64 + (c.index // 2) % 32
+            mm_old.mappings.values[k].module, mm_old.mappings.values[k].controller = 1, 2   # in-place edit of one padded entry
+            got2 = [(x.module, x.controller) for x in mm_old.mappings.values]
+            want[k] = (1, 2)
+            if got2 != want:
+                moved = [i for i in range(96) if got2[i] != want[i]]
+                res.violation("C15:padded-mappings-aliased", f"editing padded mapping entry {k} in place also changed entries {moved[:6]}", desc)
+            else:
+                mm_old.update_user_defined_controllers()
+                s_again = workload.load(s_old.read())
+                got3 = [(x.module, x.controller) for x in s_again.module.mappings.values]
+                if got3 != want:
+                    res.violation("C15:synth:/payload/mappings[]", f"mapping table after editing entry {k} and save/load differs at {[i for i in range(96) if got3[i] != want[i]][:6]}", desc)
     cl = m.clone()
     for path, a, b in snapshot.diff(S_syn, build.norm_module(snapshot.snap_module(cl, "synth"), "after"))[:3]:
         res.violation(f"C15:clone:{snapshot.field_key(path)}", f"clone {path}: original {a}, clone {b}", desc)
